@@ -58,6 +58,7 @@ type tr2 struct {
 	emitter    string // name of the output channel of an emitter (a function with a channel parameter and an error result)
 	noResult   string // a function without results evaluates to the tuple of what it assigns
 	declPos    map[string]token.Pos
+	views      bool // translating the view functions of the log: l.values() is the translated `values`, not a parameter
 }
 
 var leanTypeOfKind = map[string]string{"ents": "List Entry", "omap": "List Entry", "int": "Int", "cids": "List Hash",
@@ -191,6 +192,13 @@ func (t *tr2) expr(e ast.Expr) (string, string) {
 		return t.fail(e, "unary operator"), ""
 	case *ast.BinaryExpr:
 		if x.Op == token.EQL || x.Op == token.NEQ {
+			if id, ok := x.X.(*ast.Ident); ok && isNil(x.Y) && t.kinds[id.Name] == "omap" {
+				// the ordered maps of a log are set by NewLog and replaced by non-nil ones only: never nil
+				if x.Op == token.EQL {
+					return "false", "bool"
+				}
+				return "true", "bool"
+			}
 			if sel, ok := x.X.(*ast.SelectorExpr); ok && isNil(x.Y) {
 				if id, ok := sel.X.(*ast.Ident); ok && t.kinds[id.Name] == "logopts" && sel.Sel.Name == "Clock" {
 					if x.Op == token.EQL {
@@ -635,6 +643,10 @@ func (t *tr2) call(x *ast.CallExpr) (string, string) {
 	if sel.Sel.Name == "Slice" && kr == "omap" && len(x.Args) == 0 {
 		return recv, "ents"
 	}
+	if sel.Sel.Name == "Reverse" && kr == "omap" && len(x.Args) == 0 {
+		// OrderedMap.Reverse reverses the key slice in place and returns the receiver (Props/OMapRefine.abs_reverse)
+		return recv + ".reverse", "omap"
+	}
 	if sel.Sel.Name == "At" && kr == "omap" && len(x.Args) == 1 {
 		// m.At(uint(i)): the i-th value or nil; a negative i converts to a huge index, i.e. nil (i.toNat = 0 is in
 		// range only for a non-empty map, where i = -1 cannot arise from Len()-1 … the proofs cover the cases)
@@ -975,6 +987,54 @@ func (t *tr2) block(stmts []ast.Stmt, fall string, inLoop bool) string {
 		if inLoop || len(x.Results) != 1 {
 			return t.fail(st, "return inside a loop, or not exactly one result")
 		}
+		if u, ok := x.Results[0].(*ast.UnaryExpr); ok && u.Op == token.AND && t.views {
+			// &iface.JSONLog{ID: l.ID, Heads: …} / &Snapshot{ID: l.ID, Heads: …, Values: …}: the id is the log's own,
+			// the result is the tuple of the other fields in the order Heads, Values
+			if cl, ok := u.X.(*ast.CompositeLit); ok && (src(t.fset, cl.Type) == "iface.JSONLog" || src(t.fset, cl.Type) == "Snapshot") {
+				f := map[string]ast.Expr{}
+				for _, el := range cl.Elts {
+					kv, ok := el.(*ast.KeyValueExpr)
+					if !ok {
+						return t.fail(st, "returned struct without field names")
+					}
+					f[src(t.fset, kv.Key)] = kv.Value
+				}
+				want := []string{"Heads"}
+				if src(t.fset, cl.Type) == "Snapshot" {
+					want = []string{"Heads", "Values"}
+				}
+				if f["ID"] == nil || src(t.fset, f["ID"]) != t.recv+".ID" || len(f) != len(want)+1 {
+					return t.fail(st, "returned struct: fields")
+				}
+				var parts []string
+				bind := ""
+				for _, w := range want {
+					if f[w] == nil {
+						return t.fail(st, "returned struct: field "+w)
+					}
+					if src(t.fset, f[w]) == t.recv+".values().Slice()" {
+						bind = "vals__"
+						parts = append(parts, "vals__")
+						continue
+					}
+					v, k := t.expr(f[w])
+					if (w == "Heads" && k != "cids") || (w == "Values" && k != "ents") {
+						return t.fail(st, "returned struct: kind of "+w)
+					}
+					parts = append(parts, v)
+				}
+				res := "(" + strings.Join(parts, ", ") + ")"
+				if bind != "" {
+					t.usesFuel = true
+					return "(match (values fuel lEntries sortDesc lHeads) with | none => none | some vals__ => (some " + res + "))"
+				}
+				if t.partial {
+					return "(some " + res + ")"
+				}
+				return res
+			}
+			return t.fail(st, "returned struct")
+		}
 		if sl, ok := x.Results[0].(*ast.SliceExpr); ok {
 			if !t.partial || sl.Slice3 {
 				return t.fail(st, "slice expression")
@@ -1277,6 +1337,21 @@ func (t *tr2) assign(x *ast.AssignStmt, rest []ast.Stmt, fall string, inLoop boo
 				}
 			}
 			return t.fail(x, "traverse call without the error test")
+		}
+	}
+	// m, _ := l.traverse(roots, amount, endHash): the error is ignored — what follows uses m, which is nil after an
+	// error (a method call on it panics): `none`
+	if len(x.Lhs) == 2 && len(x.Rhs) == 1 && x.Tok == token.DEFINE && src(t.fset, x.Lhs[1]) == "_" && t.recv != "" && t.partial {
+		if c, ok := x.Rhs[0].(*ast.CallExpr); ok && selChain(c.Fun) == t.recv+".traverse" && len(c.Args) == 3 {
+			a0, k0 := t.expr(c.Args[0])
+			a1, k1 := t.expr(c.Args[1])
+			a2, k2 := t.expr(c.Args[2])
+			if id, ok := x.Lhs[0].(*ast.Ident); ok && k0 == "omap" && k1 == "int" && k2 == "hash" {
+				t.kinds[id.Name] = "omap"
+				t.usesFuel = true
+				return "(match (traverse fuel lEntries sortDesc " + a0 + " " + a1 + " " + a2 + ") with | none => none | some " + leanName(id.Name) + " => " + t.block(rest, fall, inLoop) + ")"
+			}
+			return t.fail(x, "traverse call with ignored error")
 		}
 	}
 	// v, ok := m.Get(k) on an ordered map
@@ -2164,6 +2239,24 @@ func (t *tr2) funcDecl(fd *ast.FuncDecl, name string) string {
 	t.brk = ""
 	t.recv = ""
 	t.partial = usesSlicing(fd) || (fd.Type.Results != nil && len(fd.Type.Results.List) == 2)
+	if t.views {
+		// a traversal whose error is ignored, or a call of the (partial) `values`
+		ast.Inspect(fd.Body, func(n ast.Node) bool {
+			switch x := n.(type) {
+			case *ast.AssignStmt:
+				if len(x.Lhs) == 2 && len(x.Rhs) == 1 && src(t.fset, x.Lhs[1]) == "_" {
+					if c, ok := x.Rhs[0].(*ast.CallExpr); ok && strings.HasSuffix(selChain(c.Fun), ".traverse") {
+						t.partial = true
+					}
+				}
+			case *ast.CallExpr:
+				if strings.HasSuffix(selChain(x.Fun), ".values") {
+					t.partial = true
+				}
+			}
+			return true
+		})
+	}
 	var ps, names []string
 	t.noResult = ""
 	t.emitter = ""
@@ -2253,6 +2346,14 @@ func (t *tr2) funcDecl(fd *ast.FuncDecl, name string) string {
 	ret := ""
 	if fd.Type.Results != nil && len(fd.Type.Results.List) >= 1 {
 		ret = leanTypeOfKind[kindOfType(fd.Type.Results.List[0].Type)]
+		if t.views {
+			switch typeString(fd.Type.Results.List[0].Type) {
+			case "*iface.JSONLog":
+				ret = "List Hash"
+			case "*Snapshot":
+				ret = "List Hash × List Entry"
+			}
+		}
 	}
 	if fd.Type.Results == nil || len(fd.Type.Results.List) == 0 {
 		// no result: the function is what it does to the variables it assigns
@@ -2316,7 +2417,7 @@ func needsFuel(fd *ast.FuncDecl) bool {
 				found = true
 			}
 		case *ast.CallExpr:
-			if strings.HasSuffix(selChain(x.Fun), ".traverse") {
+			if strings.HasSuffix(selChain(x.Fun), ".traverse") || (viewsMode && strings.HasSuffix(selChain(x.Fun), ".values")) {
 				found = true
 			}
 		}
@@ -2324,6 +2425,9 @@ func needsFuel(fd *ast.FuncDecl) bool {
 	})
 	return found
 }
+
+// viewsMode: the group of view functions is being translated (l.values() is the translated definition)
+var viewsMode bool
 
 func (t *tr2) prepare(fd *ast.FuncDecl) {
 	uniquifyIfInits(fd)
@@ -2851,12 +2955,15 @@ func renderSlices(repo string) map[string]string {
 		{"JoinTail", []job{{"log.go", []string{"Join@join.publish"}}}},
 		{"Iterator", []job{{"log.go", []string{"sortedHeads", "Iterator"}}}},
 		{"Append", []job{{"log.go", []string{"getEveryPow2", "Append@append.locked"}}}},
+		{"Views", []job{{"log.go", []string{"values", "ToJSONLog", "ToSnapshot"}}}},
 	}
 	out := map[string]string{}
 	for _, g := range groups {
 		t := &tr2{fset: token.NewFileSet()}
+		t.views = g.name == "Views"
+		viewsMode = t.views
 		var b strings.Builder
-		if g.name == "Iterator" {
+		if g.name == "Iterator" || g.name == "Views" {
 			b.WriteString("import Generated.GenTraverse\n")
 		}
 		if g.name == "NewLog" {
